@@ -43,6 +43,9 @@ def run(ctx):
     for j in pj:
         j["kind"] = j["kind"] + "+process-pool"
     js += pj
+    # every zero-valued candidate of every algorithm parameter the validators accept (an operator switched off): where 0/0 and empty selections arise
+    sw = jobs.param_sweep_jobs(ctx.rng, names, kinds=("cont", "cont-sym"), max_cycles=3, objectives=("sphere", "linear"), minmaxes=("min", "max"))
+    js += [j for j in sw if any(v == 0 and not isinstance(v, bool) for k, v in j["cfg"].items() if k not in ("max_cycles", "fitness_error"))]
     results = pmap(trace.run_traced, js)
     judge(ctx, results, ["C01"])
 
